@@ -328,7 +328,7 @@ def classify(run, wanted):
                           inconclusive=[c.get("description") for c in incon] + ([] if incon else [c.get("description") for c in undet][:5]),
                           covers_satisfied=covers_sat, covers_unsat=len(covers_unsat),
                           duration_ms=r.get("duration_ms"), solver_s=stats.get("runtime_solver_s"),
-                          symex_s=stats.get("runtime_symex_s"), vccs=stats.get("vccs_generated"))
+                          symex_s=stats.get("runtime_symex_s"), vccs=stats.get("vccs_generated"), steps=stats.get("size_program_expression"))
         if status == "failed" and incon:
             res[short]["note"] = "also inconclusive checks: %s" % [c.get("description") for c in incon][:3]
     for h in wanted:
